@@ -515,10 +515,12 @@ class ZorgFileCompiler(ZorgFileListener):
 
             for bullet in bullets:
                 words = bullet.split()
-                if zdt.is_short_date_spec(words[0]):
+                if words and zdt.is_short_date_spec(words[0]):
                     words.pop(0)
-                if zdt.is_zid(words[0]):
+                if words and zdt.is_zid(words[0]):
                     words.pop(0)
+                if not words:
+                    continue
                 first_word = words.pop(0)
                 if first_word.endswith("::"):
                     key = first_word[:-2]
